@@ -20,6 +20,11 @@ def generate(rng, tier):
             ops.append({"kind": "stop"})
     if ops[-1]["kind"] != "stop":
         ops.append({"kind": "stop"})
+    # a STOP command is only valid after an acknowledge (SCL low): one given on an idle bus, right after a START or twice in a row
+    # must be ignored (no START/STOP pair on the wire)
+    if rng.random() < 0.4:
+        k = rng.choice([0, 1, len(ops)])
+        ops.insert(k, {"kind": "stop", "redundant": 1})
     for o in ops:
         o["delay"] = rng.choice([0, 0, 1, 2, 3, 7])         # cycles between seeing idle and writing the command
     # overlapping commands: a second strobe while the previous command is still running (software that does not poll)
@@ -159,7 +164,7 @@ def run(scn, mkV, _result):
                     word |= op["ack"] << 8
                 s_.wb(w, 1, 0, word)
                 # a write taken while SCL is low (after a previous byte) presents bit 7 in the running low phase: no falling edge for it
-                st["cur"] = dict(op, falls=0 if (scl or op["kind"] != "write") else 1, index=st["op"], issued=t)
+                st["cur"] = dict(op, falls=0 if (scl or op["kind"] != "write") else 1, index=st["op"], issued=t, scl_at_issue=scl)
                 st["issued"].append(st["cur"])
                 if op["kind"] == "read":
                     w(rel["sda"], (op["slave_data"] >> 7) & 1)
@@ -226,7 +231,8 @@ def run(scn, mkV, _result):
             if c["kind"] == "start":
                 exp.append(("START",))
             elif c["kind"] == "stop":
-                exp.append(("STOP",))
+                if not c["scl_at_issue"]:
+                    exp.append(("STOP",))         # (with SCL high the command is not valid and leaves the bus alone)
             elif c["kind"] == "write":
                 exp += [("BIT", (c["data"] >> (7 - i)) & 1) for i in range(8)] + [("BIT", 0 if c["slave_ack"] else 1)]
             else:
